@@ -48,6 +48,11 @@ type Peer struct {
 func NewPeer(name string, end *wire.End, log *Log) *Peer {
 	p := &Peer{Name: name, End: end, Log: log, SendKind: "psend", RecvKind: "precv", done: make(chan struct{})}
 	p.cond = sync.NewCond(&p.mu)
+	return p
+}
+
+// Start launches the reader; AutoAck/AutoReply must be configured before.
+func (p *Peer) Start() *Peer {
 	go p.reader()
 	return p
 }
